@@ -16,6 +16,11 @@ impl<'a, T: Queryable> Clone for State<'a, T> {
     fn clone(&self) -> (r: Self) ensures r == *self { unimplemented!() }
 }
 
+impl Clone for FnArg {
+    #[verifier::external_body]
+    fn clone(&self) -> (r: Self) ensures r == *self { unimplemented!() }
+}
+
 // R1: X.into_iter().chain(Y).collect()
 #[verifier::external_body]
 pub fn vf_chain_collect<A>(x: Vec<A>, y: Vec<A>) -> (r: Vec<A>)
